@@ -54,6 +54,16 @@ def relabellings(rnd, lines):
     pool = sorted(rnd.sample("ABCDEFGHIJKLMNOPQRSTUVWXYZ", len(chains)))
     cmap = dict(zip(chains, pool))
     out.append(("chains", [pdbgen.setcols(l, 21, 22, cmap[l[21]]) if pdbgen.is_atom(l) else l for l in lines]))
+    # chain identifiers are single characters of any kind: digits, and letters that differ only in case, are different chains
+    pool2 = sorted(rnd.sample("0123456789", min(len(chains), 3)) + ["Q", "q"] + rnd.sample("abcdefgh", 3))
+    if len(chains) >= 2:
+        names = ["Q", "q"] + [c for c in pool2 if c > "q"][:len(chains) - 2]
+        if len(names) == len(chains):
+            cm2 = dict(zip(chains, names))
+            out.append(("chains-case", [pdbgen.setcols(l, 21, 22, cm2[l[21]]) if pdbgen.is_atom(l) else l for l in lines]))
+    else:
+        cm2 = {chains[0]: rnd.choice("abcxyz019")}
+        out.append(("chains-case", [pdbgen.setcols(l, 21, 22, cm2[l[21]]) if pdbgen.is_atom(l) else l for l in lines]))
     # shift residue numbers of every chain by a constant (also to negative numbers)
     nums = [int(l[22:26]) for l in lines if pdbgen.is_atom(l)]
     for shift in (rnd.randint(1, 400), -(min(nums) + rnd.randint(1, 50))):
